@@ -9,7 +9,7 @@ variable {pf : Bool}
 theorem ThOK.congr_local {i : Nat} {sh : Sh} {th th' : Th} {a : Abs} (h : ThOK i sh th a)
     (h1 : th'.tv = th.tv) (h2 : th'.lg = th.lg) (h3 : th'.pg = th.pg) (h4 : th'.mv = th.mv)
     (h5 : th'.lockv = th.lockv) (h6 : th'.hb = th.hb) (h7 : th'.fault = th.fault) : ThOK i sh th' a :=
-  { hW := h.hW, hR := h.hR, lkHeld := h.lkHeld, wlw := h.wlw, wlH := h.wlH, wpH := h.wpH,
+  { hW := h.hW, hR := h.hR, lkHeld := h.lkHeld, wlw := h.wlw, wlH := h.wlH, wpH := h.wpH, wcH := h.wcH,
     nofault := (by rw [h7]; exact h.nofault), mread := (by rw [h4]; exact h.mread), tvok := (by rw [h1]; exact h.tvok),
     lv := (by rw [h5]; exact h.lv),
     know := h.know.transfer rfl (fun x => x) rfl rfl rfl h1 (by rw [h6]; exact fun x hx => hx),
@@ -17,7 +17,7 @@ theorem ThOK.congr_local {i : Nat} {sh : Sh} {th th' : Th} {a : Abs} (h : ThOK i
 
 theorem ThOK.refine_k {i : Nat} {sh : Sh} {th : Th} {a : Abs} {k' : Know} (h : ThOK i sh th a)
     (hk : KnowOK sh th { a with k := k' }) : ThOK i sh th { a with k := k' } :=
-  { hW := h.hW, hR := h.hR, lkHeld := h.lkHeld, wlw := h.wlw, wlH := h.wlH, wpH := h.wpH,
+  { hW := h.hW, hR := h.hR, lkHeld := h.lkHeld, wlw := h.wlw, wlH := h.wlH, wpH := h.wpH, wcH := h.wcH,
     nofault := h.nofault, mread := h.mread, lv := h.lv, know := hk, view := h.view, tvok := h.tvok }
 
 /-- one operation -/
@@ -70,6 +70,21 @@ theorem inv_execOp {s : State} {i : Nat} {th : Th} {a a' : Abs} {o : Op} {K : Pr
     simp only [absOp] at habs
     cases habs
     exact inv_readM hI hth hok hK
+  | readC =>
+    simp only [absOp] at habs
+    split at habs
+    next hc =>
+      cases habs
+      simp only [execOp]
+      exact inv_plain_read (f := .c) (th' := { th with prog := K, hb := (mkAcc i .c false false s.sh).id :: th.hb }) hI hth hok hc hK rfl rfl rfl rfl rfl (viewOK_congr hok.view rfl rfl rfl)
+    next => cases habs
+  | writeC =>
+    simp only [absOp] at habs
+    split at habs
+    next hc =>
+      cases habs
+      exact inv_writeC hI hth hok hc hK
+    next => cases habs
   | writeL =>
     simp only [absOp] at habs
     split at habs
@@ -109,7 +124,7 @@ theorem inv_execOp {s : State} {i : Nat} {th : Th} {a a' : Abs} {o : Op} {K : Pr
     next hc =>
       cases habs
       simp only [Bool.and_eq_true, Bool.not_eq_true'] at hc
-      exact inv_relW hI hth hok hc.1.1 hc.1.2 hc.2 hK
+      exact inv_relW hI hth hok hc.1.1.1 hc.1.1.2 hc.1.2 hc.2 hK
     next => cases habs
   | relR =>
     simp only [absOp] at habs
